@@ -447,6 +447,19 @@ pub fn gen_driver(prop: &str, rng: &mut Rng, sh: &mut Shards, out: &str, thoroug
             vec![Item::Proc { name: "pq".into(), body: vec![Item::Ins(Ins::Ctl { op: "stc" })] }, Item::Label("start".into()), Item::Ins(Ins::Call { name: "pq".into(), target: 0 })],
             vec![Item::Ins(Ins::Ctl { op: "cmc" }), Item::Label("start".into()), Item::Ins(Ins::Int { n: 3 })],
             vec![Item::Label("start".into()), Item::Ins(Ins::Print { what: PrintWhat::Flags })],
+            // a taken jump to a label that is followed by a print statement / a macro use / is the last thing
+            vec![Item::Label("start".into()), Item::Ins(Ins::Jcc { mn: "jmp", label: "before_print".into(), target: 0 }), Item::Ins(Ins::Ctl { op: "stc" }), Item::Label("before_print".into()), Item::Ins(Ins::Print { what: PrintWhat::Reg }), Item::Ins(Ins::Ctl { op: "cmc" })],
+            vec![Item::Raw("macro Mtwice(r) -> inc r inc r <-".into()), Item::Label("start".into()), Item::Ins(Ins::Jcc { mn: "jnc", label: "before_use".into(), target: 0 }), Item::Ins(Ins::Ctl { op: "stc" }), Item::Label("before_use".into()),
+                 Item::Use { text: "Mtwice(bx)".into(), expands: vec![Ins::UnArith { op: "inc", w: 16, dst: Opnd::Reg16("bx") }, Ins::UnArith { op: "inc", w: 16, dst: Opnd::Reg16("bx") }] }, Item::Ins(Ins::Print { what: PrintWhat::Reg })],
+            // a label directly before a procedure: jumping there continues with the procedure's first instruction
+            vec![Item::Label("start".into()), Item::Ins(Ins::Jcc { mn: "jmp", label: "before_proc".into(), target: 0 }), Item::Ins(Ins::Ctl { op: "stc" }), Item::Label("before_proc".into()),
+                 Item::Proc { name: "pz".into(), body: vec![Item::Ins(Ins::UnArith { op: "inc", w: 16, dst: Opnd::Reg16("dx") }), Item::Ins(Ins::Ctl { op: "hlt" })] }, Item::Ins(Ins::Ctl { op: "cmc" })],
+            // procedures calling procedures to depth 4, twice
+            vec![Item::Proc { name: "q1".into(), body: vec![Item::Ins(Ins::UnArith { op: "inc", w: 16, dst: Opnd::Reg16("ax") })] },
+                 Item::Proc { name: "q2".into(), body: vec![Item::Ins(Ins::Call { name: "q1".into(), target: 0 }), Item::Ins(Ins::Call { name: "q1".into(), target: 0 })] },
+                 Item::Proc { name: "q3".into(), body: vec![Item::Ins(Ins::Call { name: "q2".into(), target: 0 }), Item::Ins(Ins::UnArith { op: "inc", w: 16, dst: Opnd::Reg16("bx") }), Item::Ins(Ins::Call { name: "q1".into(), target: 0 })] },
+                 Item::Proc { name: "q4".into(), body: vec![Item::Ins(Ins::Call { name: "q3".into(), target: 0 }), Item::Ins(Ins::Call { name: "q2".into(), target: 0 })] },
+                 Item::Label("start".into()), Item::Ins(Ins::Call { name: "q4".into(), target: 0 }), Item::Ins(Ins::Call { name: "q4".into(), target: 0 }), Item::Ins(Ins::Print { what: PrintWhat::Reg })],
         ];
         for (i, s) in shapes.iter().enumerate() {
             for interp in [false, true] {
